@@ -493,13 +493,13 @@ func init() {
 		Level:       "exploration",
 		Race:        true,
 		Env:         []string{"VERIF_YIELD_SEED=20260929"},
-		Rule:        "under the Go race detector (halt_on_error=0, reports attributed to the case by reading the race log after each case and classified by the accessing frames): ingest of 1/2/10/41/200-block tables with worker settings {1,4,6,10,18} x GOMAXPROCS {1,2,4,16} x yield seeds (verifhook.Yield at the shared-state touch points picks nothing / Gosched / 10-300 us sleep without adding synchronisation) on the mutex-protected memory store and on badger, with real progress bars attached; differ and merger (2-3 branches) on multi-block tables; the real commit/diff/merge commands in-process with default progress bars; every result compared with the unperturbed single-worker run (table id, structural monitor, diff event multiset, merge rows and conflicts); a store error injected at every write position of a 10-block ingest must surface as an error and return; hangs are judged by goroutine state, not by time; distinct_nontrivial = distinct (pipeline, workers, blocks, GOMAXPROCS, yield seed) runs",
+		Rule:        "under the Go race detector (halt_on_error=0, reports attributed to the case by reading the race log after each case and classified by the accessing frames): ingest of 1/2/10/41/200-block tables with worker settings {1,2,3,4,6,10,18} x GOMAXPROCS {1,2,4,16} x yield seeds (verifhook.Yield at the shared-state touch points picks nothing / Gosched / 10-300 us sleep without adding synchronisation) on the mutex-protected memory store and on badger, with real progress bars attached; differ and merger (2-3 branches) on multi-block tables; the real commit/diff/merge commands in-process with default progress bars; every result compared with the unperturbed single-worker run (table id, structural monitor, diff event multiset, merge rows and conflicts); a store error injected at every write position of a 10-block ingest must surface as an error and return; hangs are judged by goroutine state, not by time; distinct_nontrivial = distinct (pipeline, workers, blocks, GOMAXPROCS, yield seed) runs",
 		Assumptions: []string{"schedules are sampled (widened by yields and GOMAXPROCS), not enumerated", "the detector only understands synchronisation it intercepts (wrgl uses channels, sync and atomics only)"},
 		Workers:     6,
 		Gen: func(tier string, seed int64) []fw.Case {
 			l := fw.NewCaseList("C16", tier, seed)
 			rng := l.Rng()
-			workerSet := []int{1, 4, 6, 10, 18}
+			workerSet := []int{1, 2, 3, 4, 6, 10, 18}
 			procSet := []int{1, 2, 4, 16}
 			blocks := []int{1, 2, 10, 41}
 			nseeds := l.N(3, 30)
@@ -515,7 +515,7 @@ func init() {
 				}
 			}
 			for i := 0; i < l.N(1, 6); i++ {
-				l.Add("ingest", c16Params{Pipeline: "ingest", Blocks: 200, Workers: workerSet[1+rng.Intn(4)], Procs: 16, Yield: uint64(1 + rng.Intn(1<<30)), Store: "mem", Bars: true}, 0)
+				l.Add("ingest", c16Params{Pipeline: "ingest", Blocks: 200, Workers: workerSet[3+rng.Intn(4)], Procs: 16, Yield: uint64(1 + rng.Intn(1<<30)), Store: "mem", Bars: true}, 0)
 			}
 			// yield hit counting (plain counting mode)
 			l.Add("count", c16Params{Pipeline: "ingest", Blocks: 10, Workers: 6, Procs: 4, Yield: 7, Store: "mem", Count: true}, 0)
